@@ -80,7 +80,8 @@ def make(cfg_in):
     def h(c):
         mode = cfg['mode']
         Lt = scenario.build_table(c, 'L', cfg['nl'], cfg['k'], cfg['kmin'], cfg['missing'], False, False)
-        Rt = scenario.build_table(c, 'R', cfg['nr'], cfg['k'], cfg['kmin'], cfg['missing'], False, False)
+        Rt = scenario.build_table(c, 'R', cfg['nr'], cfg['k'], cfg['kmin'], cfg.get('missing_r', cfg['missing']),
+                                  False, False)
         ncand = symdata.choice(c, 'ncand', cfg['ncand'])
         extra = symdata.choice(c, 'extracol', cfg['extra_col'])
         cidx = symdata.choice(c, 'candindex', cfg['cand_index'])
